@@ -70,7 +70,7 @@ def _get(modname, clsname):
     return _cls_cache[key]
 
 
-def facts(m, text, cfg):
+def facts(m, text, cfg, form='str'):
     """Enabling facts of the admissible refusals, from the input and the options."""
     name, modname, clsname, kw = cfg
     f = {'verbBlocked': 'no', 'pygFail': 'yes' if kw.get('fail_on_unsupported_language') else 'no', 'pygUnknown': 'no',
@@ -83,7 +83,7 @@ def facts(m, text, cfg):
         from pygments.util import ClassNotFound
         try:
             with m.HtmlRenderer():
-                doc = m.Document(text)
+                doc = m.Document(text.splitlines(keepends=True) if form == 'list' else io.StringIO(text) if form == 'file' else text)
             stack = [doc]
             while stack:
                 t = stack.pop()
@@ -147,7 +147,7 @@ def work_chunk(args):
             if oc == 'return' and rt == 'str':
                 out.append((start + k, ci, form, None, wall))
             else:
-                out.append((start + k, ci, form, dict(facts(m, text, cfg), renderer=cfg[2], outcome=oc, resultType=rt, exc=exc), wall))
+                out.append((start + k, ci, form, dict(facts(m, text, cfg, form), renderer=cfg[2], outcome=oc, resultType=rt, exc=exc), wall))
     return out
 
 
@@ -178,6 +178,24 @@ def input_stream(ck):
     # (ii) corpus, mutations, splices
     for t in inputs.texts(ck.rng, 2500 if quick else 60000, kinds=('corpus', 'mutant', 'mutant', 'splice')):
         yield 'corpus-derived', t, 3 if quick else 5
+    # (ii-b) every prefix and every suffix of corpus examples: "the construct ends exactly here" shapes
+    cp = [e['markdown'] for e in inputs.corpus()]
+    step = 3 if quick else 1
+    for k, t in enumerate(cp):
+        if k % step:
+            continue
+        for i in range(1, min(len(t), 120)):
+            yield 'corpus-prefix', t[:i], 1
+            yield 'corpus-suffix', t[-i:], 1
+    for tpl in ['[a](<b>', '![a]( <u v>', '[a](b "t"', '[a][b', '`a', '**a', '<a href="x', '<!-- a', '[a]: <b', '[a]: b "t', '| a |\n|--', '```\na', '> - a\n> -', '&#12', '\\',
+                '<http://a', 'a  ', '[[a|b', '$a', '{{a}', '~~a', '1.', '-', '#']:
+        for pre in ('', 'x ', '# ', '> ', '- ', '| a |\n|---|\n| '):
+            yield 'unfinished-construct', pre + tpl, len(CONFIGS)
+    # (ii-c) long runs that make a pattern backtrack
+    for n in ([500] if quick else [200, 500, 1000]):
+        for t in ['a [[' + ' ' * n + 'a|' + ' ' * n + 'b', '[[' + 'a ' * n + '|', '<a ' + 'b ' * n, '[a](' + ' ' * n + 'b', '`' * n + 'a', '*' * n + 'a' + '*' * n,
+                  '[' * n + 'a' + ']' * n, '<' * n, '&' + 'a' * n, '\\' * n + '*', '| ' * n + '\n' + '|-' * n, '~' * n + 'a' + '~' * n, '$' * n + 'a', '{{a ' + ' ' * n + '}']:
+            yield 'long-run', t, len(CONFIGS)
     # (iii) exhaustive small alphabets
     L = 5 if quick else 7
     for al in ALPHABETS:
@@ -258,9 +276,12 @@ def run():
                     continue
                 seen_inputs.add((texts[ti], CONFIGS[ci][0]))
                 site = crash_site(texts[ti], form, CONFIGS[ci]) if r['outcome'] == 'raise' else ''
+                classes = []
+                if CONFIGS[ci][2] == 'GithubWikiRenderer' and re.search(r'\[\[.* {100,}', texts[ti]):
+                    classes.append('wiki-link-pattern-with-long-run-of-spaces')
                 ck.violation('%s: renderer=%s options=%s form=%s input=%r [%s] at %s' % (v, CONFIGS[ci][2], CONFIGS[ci][3], form, texts[ti][:200], kinds[ti], site),
                              {'input': texts[ti], 'config': CONFIGS[ci][0], 'renderer': CONFIGS[ci][2], 'options': CONFIGS[ci][3], 'form': form,
-                              'clause': v, 'site': site})
+                              'clause': v, 'site': site, 'classes': classes})
                 if len(seen_inputs) >= 40:
                     break
     kc = {}
